@@ -167,6 +167,9 @@ FIXED_CALLS = [
     ("add", "(a b) c, (a b) -> (a b) c", [[6, 2], [6]], {}),
     ("add", "a (b + c), (b + c) -> a (b + c)", [[2, 5], [5]], {}),
     ("dot", "a (b c), (b c) d -> a d", [[2, 6], [6, 5]], {}),
+    # D21 (work package cse2): overlapping slice candidates `a 1` / `1 d`
+    ("solve_shapes", "(a 1 d), (1 d) c", [[6], [3, 2]], {}),
+    ("matches", "(a 1 d), (1 d) c, (a 1)", [[12], [2, 2], [4]], {}),
 ]
 
 
@@ -178,12 +181,14 @@ def run_captured(ctx):
         c = c02.gen_case(ctx.rng)
         if c["api"] != "solve_axes":          # solve_axes runs with cse=False
             cases.append(c)
-    with Wrap() as w:
+    from props import c02_sys
+    with Wrap() as w, c02_sys.SysWrap() as sw:       # stream (E): the equations of the real stage 3 during the same calls
         for c in cases:
             r = c02.call_real(c)
             ctx.count("cse:real-calls")
             if r.get("exc") == "timeout":
                 ctx.count("cse:real-call-timeout")
+    w.sys = sw
     return w
 
 
@@ -226,11 +231,16 @@ def gen_arg(rng, S):
 # not to hold on the pinned tree, because einx itself is wrong there (docs/wp/cse.md, section (e)):
 #  1. a user axis `cse...` expands to `cse.0`, `cse.1` and collides with the fresh axis `cse.0`;
 #  2. the root-level filter of `cse` looks only at the first exprlist of a candidate, so `[c d]` at root level is
-#     replaced by one axis and stage 3 fails its `ndim` assertion.
+#     replaced by one axis and stage 3 fails its `ndim` assertion;
+#  3. (D21) two slice candidates overlap in a node without a shared name (`a 1` and `1 d` in `a 1 d`): `d` is copied
+#     in one place and replaced as part of `1 d` in another.
 # Any *other* real call that does not meet the side conditions is a broken tie (premise of the theorem not established).
+# The value is the list of parts of `cseCheckReduced` that fail (exactly the one that is false for the real code).
 DOCUMENTED_NOT_MET = {
-    ("(a b) cse.0 cse.1, (a b), , 6 2 3, 6, None", True, False),
-    ("a ([c d]) [c d], a (), 4 6 2 3, None", False, True),
+    ("(a b) cse.0 cse.1, (a b), , 6 2 3, 6, None", True, False): ["fresh_ok"],          # D19
+    ("a ([c d]) [c d], a (), 4 6 2 3, None", False, True): ["root_dims_ok"],           # D20
+    ("(a 1 d), (1 d) c, , 6, 3 2, None", True, False): ["copied_ok"],                   # D21 (must succeed, raises)
+    ("(a 1 d), (1 d) c, (a 1), , 12, 2 2, 4, None", True, False): ["copied_ok"],        # D21 (must fail, accepted)
 }
 
 
@@ -387,16 +397,29 @@ def run_cse_trees(ctx, w, S, M):
         if not c["filter_ok"]:
             # decidable form of the proved fact `cse_trees_is_cse_step`: must hold for every input whatsoever
             ctx.tie_broken("model:cse_filter_ok", f"a replacement of the model did not pass the filter for cse({render_forest(rec['roots'])!r}) [{src}]")
+        # work package cse2: the parts of `cseCheckReduced` (Solve/CseCheck2.lean).  `reduced -> check` is proved
+        # (`cseCheck_of_reduced`) for runs that do not raise; its decidable form must hold on every input whatsoever.
+        parts = [k for k in ("input_ok", "fresh_ok", "root_dims_ok", "copied_ok", "shared_ok") if not c[k]]
+        ctx.count(f"cse_reduced:{src}:" + ("ok" if c["reduced"] else "not-met:" + "+".join(parts)))
+        if real["ok"] and c["reduced"] and not c["check"]:
+            ctx.tie_broken("model:cse_reduced", f"cseCheckReduced holds but cseCheck does not for cse({render_forest(rec['roots'])!r}) [{src}]")
+        if src == "captured" and not (c["input_ok"] and c["shared_ok"]):
+            # `inputOK` is a fact about the output of stage 2; `sharedOK` is not proved: on a real call both must hold
+            # — also on the documented defect inputs (which fail exactly one other part)
+            ctx.tie_broken("premise:cse_reduced", f"{'+'.join(k for k in ('input_ok', 'shared_ok') if not c[k])} does not hold for the real call "
+                           f"cse({render_forest(rec['roots'])!r}, cse_concat={rec['cse_concat']}, cse_in_brackets={rec['cse_in_brackets']})")
         if not c["check"]:
             why = [k for k in ("wf", "used_ok", "pairs_ok") if not c[k]]
             ctx.count(f"cse_check:{src}:not-met:" + "+".join(why))
             if src == "captured":
                 sig = (render_forest(rec["roots"]), rec["cse_concat"], rec["cse_in_brackets"])
                 uncovered.append({"cse_of": sig[0], "cse_concat": sig[1], "cse_in_brackets": sig[2], "failed": why,
-                                  "documented": sig in DOCUMENTED_NOT_MET})
+                                  "failed_reduced_parts": parts, "documented": sig in DOCUMENTED_NOT_MET})
                 if sig not in DOCUMENTED_NOT_MET:
-                    ctx.tie_broken("premise:cse_check", f"the side conditions of cseTrees_preserves_sols_partial ({'+'.join(why)}) do not hold for the real call "
+                    ctx.tie_broken("premise:cse_check", f"the side conditions of cseTrees_preserves_sols_partial ({'+'.join(why)}; reduced parts: {'+'.join(parts)}) do not hold for the real call "
                                    f"cse({sig[0]!r}, cse_concat={sig[1]}, cse_in_brackets={sig[2]})")
+                elif parts != DOCUMENTED_NOT_MET[sig]:
+                    ctx.tie_broken("premise:cse_check", f"the documented defect input cse({sig[0]!r}) fails {parts}, documented is {DOCUMENTED_NOT_MET[sig]}")
     ctx.extra["cse_check_not_met_on_captured_calls"] = uncovered[:20]
     if len(w.seen_cse) == 0:
         ctx.tie_broken("correspondence:cse_trees", "no call of stage2.cse was captured (the wrapper on the package attribute was never reached)")
@@ -658,4 +681,7 @@ def run_cse(ctx):
     if items_vr:
         j, r = items_vr[min(len(items_vr) - 1, 3)]
         ctx.sample({"value_range_of": render(j), "real": r})
+    # (E) `forestSys` of the CSE theorems vs the equations the real stage 3 hands to its solver (props/c02_sys.py)
+    from props import c02_sys
+    c02_sys.run_forest_sys(ctx, w.sys)
     return directed
